@@ -201,7 +201,7 @@ struct St<'a, 'b> {
 }
 
 pub fn sub_histories(tier: Tier) -> Sub {
-    let maxn = tier.pick(5, 6);
+    let maxn = tier.pick(5, 7);
     let cs = combos(1, maxn);
     let slots = (2 * maxn + 3 + 1) as u64;
     let pads = [0usize, 1, 3];
@@ -281,7 +281,7 @@ pub fn sub_histories(tier: Tier) -> Sub {
 
 pub fn sub_sequences(tier: Tier) -> Sub {
     let maxn = tier.pick(4, 5);
-    let maxlen = tier.pick(8usize, 10usize);
+    let maxlen = tier.pick(7usize, 9usize);
     let cs = combos(1, maxn);
     let slots = (2 * maxn + 1 + 1) as u64;
     let sibs = [SIB_MODES[0], SIB_MODES[1], SIB_MODES[6], SIB_MODES[10]];
